@@ -111,7 +111,11 @@ class MotionCommander:
         :return:
         """
         if self._is_flying:
-            self.down(self._thread.get_height(), velocity)
+            height = self._thread.get_height()
+            if height != 0.0:
+                # Already at ground level after moving down, nothing to descend (a zero
+                # length move would divide by zero and the motors would never be stopped)
+                self.down(height, velocity)
 
             self._thread.stop()
             self._thread = None
